@@ -288,7 +288,7 @@ func runC04(c *core.Ctx) {
 
 	// (b) synthesised types, deeper than C02's
 	seq := 0
-	plan := tagPlan{TagNames: []string{"valid"}, Style: gen.MsgUnique, MaxRules: 2, seq: &seq}
+	plan := tagPlan{TagNames: []string{"valid"}, Style: gen.MsgUnique, MaxRules: 2, Unknown: true, seq: &seq} // names nobody registered: their clause carries the path like any other
 	to := gen.TypeOpts{MaxFields: 3, MaxDepth: 4, Leaf: []reflect.Type{gen.TString, gen.TInt, gen.TUint8, gen.TFloat64}, Unexported: true, Ptr: true, PtrPtr: true, Slices: true, Arrays: true, Maps: true, Tag: plan.ruleTag}
 	M := c.Pick(400, 6000)
 	for i := 0; i < M; i++ {
